@@ -32,11 +32,15 @@ def toMember (c : ConstFact) : Member :=
   { name := c.name, val := c.val, valStr := c.valStr, comment := c.comment, exported := c.exported,
     isInt := c.isInt, int := c.int }
 
-/-- `fetchConstComment`: the position lookup returns the `*ast.ValueSpec` only for the first
-name of a spec; for `A, B T = 1, 2` the lookup of `B` yields the identifier and the unchecked
-type assertion fails. -/
-def constCommentOutcome (c : ConstFact) : Outcome Unit :=
+/-- `fetchConstComment` at the pinned commit: the position lookup returns the `*ast.ValueSpec`
+only for the first name of a spec; for `A, B T = 1, 2` the lookup of `B` yields the identifier
+and the unchecked type assertion fails. -/
+def constCommentOutcomeOld (c : ConstFact) : Outcome Unit :=
   if c.specIndex = 0 then .ok () else .crash "enums.fetchConstComment: node.(*ast.ValueSpec)"
+
+/-- `fetchConstComment` after the repair: the specification declaring the name is looked up
+directly, whatever the position of the name inside it. -/
+def constCommentOutcome (_c : ConstFact) : Outcome Unit := .ok ()
 
 /-- constants of named type `q`, not opted out, in scope order -/
 def enumMembers (p : PkgFacts) (q : String) : List ConstFact :=
@@ -256,7 +260,7 @@ def declOf (fb : FactBase) (enums : List EnumInfo) (unions : List (String × Lis
           | .ok cs => .ok (mk (.struct fields cs []))
           | .diag m => .diag m
           | .crash s => .crash s
-      | .ptr _ => .crash "analysis.createType: handleType(typ.Underlying()).(AnonymousType)"
+      | .ptr _ => .diag "named pointer types are not supported"
       | u =>
         match convert fb u with
         | .ok t => .ok (mk (.named t))
